@@ -40,7 +40,9 @@ func c07Deviations() []envDev {
 	add("scheme-unknown", "scheme", "reject", "", "", func(s *envSpec) { s.hSet(envenc.HdrScheme, js("notary.x509.other"), envenc.CText("notary.x509.other")) })
 	add("scheme-uppercase", "scheme", "reject", "", "", func(s *envSpec) { s.hSet(envenc.HdrScheme, js("NOTARY.X509"), envenc.CText("NOTARY.X509")) })
 	add("scheme-retyped-int", "scheme", "reject", "", "", func(s *envSpec) { s.hSet(envenc.HdrScheme, `7`, envenc.CInt(7)) })
-	add("scheme-retyped-array", "scheme", "reject", "", "", func(s *envSpec) { s.hSet(envenc.HdrScheme, `["notary.x509"]`, envenc.CArray(envenc.CText("notary.x509"))) })
+	add("scheme-retyped-array", "scheme", "reject", "", "", func(s *envSpec) {
+		s.hSet(envenc.HdrScheme, `["notary.x509"]`, envenc.CArray(envenc.CText("notary.x509")))
+	})
 	add("scheme-retyped-null", "scheme", "reject", "", "", func(s *envSpec) { s.hSet(envenc.HdrScheme, `null`, envenc.CNull()) })
 	add("scheme-retyped-bstr", "scheme", "reject", "cose", "", func(s *envSpec) { s.cSet(envenc.CText(envenc.HdrScheme), envenc.CBytes([]byte("notary.x509"))) })
 	// the time header that belongs to the scheme
@@ -450,7 +452,9 @@ func init() {
 			"random larger deviation sets of the quantifier are replaced by the exhaustive pair/triple bound (no sampling)"},
 		Init:      func(mc.Tier) (int, error) { envFix.init(); return len(envFix.chains), nil },
 		Scenarios: c07Scenarios,
-		Alphabet:  func(mc.Tier) map[string]int { return map[string]int{"deviations": len(c07Devs), "base_header_sets": 16} },
+		Alphabet: func(mc.Tier) map[string]int {
+			return map[string]int{"deviations": len(c07Devs), "base_header_sets": 16}
+		},
 		Guards: func(s *mc.Stats, t mc.Tier) []string {
 			var w []string
 			for _, o := range []string{"verify=true content=true", "verify=false content=false"} {
